@@ -12,6 +12,14 @@ request is answered with General Status 0x08 instead of the channel's variables.
 
 Sequentially ( any order of the same requests ) every one of them is answered with status 0x00.
 
+( A second consequence of the same unguarded check-then-create, a few lines further down: two threads pick the
+same "next free" Attribute number for two different fields, and two Tags -- eg. HART_4_Data.FV_assignment_code
+and HART_4_Data.PV_status -- end up naming one Attribute for the rest of the run.  Reported below for
+information, from the Tag table; the exit status only depends on what the sessions were answered. )
+
+The window is narrow (each channel offers it once, at its first request), so many channels are tried: with the
+default thread switch interval about 1 channel in 40 is hit.
+
 Exits 1 (printing observed vs. expected) if any of the simultaneous requests was refused; 0 if all succeed.
 """
 from __future__ import print_function
@@ -26,10 +34,8 @@ from cpppo.server.enip import client
 from cpppo.server.enip.hart import HART
 from cpppo.server.enip.main import main as enip_main
 
-sys.setswitchinterval( 1e-6 )	# let the request-handling threads really interleave
-
 SESSIONS			= 8
-CHANNELS			= 48	# every channel gives the race one chance (its first request only)
+CHANNELS			= 250	# every channel gives the race one chance (its first request only)
 ADDR				= ('127.0.0.1', 44931)
 
 HART( name="HART Channels", instance_id=0 )
@@ -86,6 +92,17 @@ for t in threads:
 for t in threads:
     t.join()
 control['done']			= True
+
+# For information: Tags of a channel that ended up naming the same Attribute
+from cpppo.server.enip import device
+aliased				= []
+for c in range( CHANNELS ):
+    where			= {}
+    for typ,fld,dfl in HART.RD_VAR_RPY_FLD:
+        where.setdefault( device.resolve_tag( "HART_%d_Data.%s" % ( c, fld )), [] ).append( fld )
+    aliased		       += [ ( c + 1, ids, flds ) for ids,flds in where.items() if len( flds ) > 1 ]
+for c,ids,flds in aliased:
+    print( "channel %3d: Tags %s all name Attribute %r" % ( c, ' and '.join( flds ), ids ))
 
 refused				= sorted( (c,s,sts) for (c,s),sts in statuses.items() if sts != 0 )
 print( "%d simultaneous first requests to %d HART channels by %d sessions: %d answered, %d refused" % (
